@@ -87,6 +87,16 @@ def run_case(case, ctx):
         'client': gen.client_plan(case['pseed'], list(case['opts']) + ['-c', '-p', '2222', '-t', '4'], profile(case, False, 'client'), port=2222),
         'json': gen.server_plan(case['pseed'], ['-j', '--skip-rate-test', '-t', '2', 'srv.example:2222'], profile(case, False, 'server'), port=2222),
     }
+    if cat == 'key' and name not in gen.RSA_FAMILY and '-cert-' not in name:
+        # beside a 2048-bit RSA host key and a small-CA certificate (both measured, both earning size notes): the notes of
+        # this key type must still be the database's - plus nothing
+        pk = profile(case, False, 'server')
+        pk['kex'] = ['curve25519-sha256'] + pk['kex']
+        pk['key'] = ['rsa-sha2-256', 'ssh-rsa-cert-v01@openssh.com'] + [x for x in pk['key'] if x not in ('rsa-sha2-256', 'ssh-rsa-cert-v01@openssh.com')]
+        pk['keys'] = {'ssh-rsa': {'bits': 2048}, 'ssh-rsa-cert-v01@openssh.com': {'bits': 1024, 'ca_type': 'ssh-rsa', 'ca_bits': 1024}}
+        if name in gen.KEY_SPECS:
+            pk['keys'][name] = {}
+        plans['beside_measured_keys'] = gen.server_plan(case['pseed'], list(case['opts']) + ['--skip-rate-test', '-t', '2', 'srv.example:2222'], pk, port=2222)
     if dbname is None:
         # the same unknown name in a second category and twice in its own list: every occurrence must be rated alike
         other = {'kex': 'key', 'key': 'enc', 'enc': 'mac', 'mac': 'enc'}[cat]
